@@ -64,6 +64,10 @@ pub fn check_vint32(ctx: &mut Ctx, v: u32, model: bool) {
         if m != hex(&bytes) {
             ctx.report.violation("model", "C07:model-vint32", format!("serialize_vint_u32({v}) = {}, model {m}", hex(&bytes)), case.clone());
         }
+        let m = ctx.model.ask(&format!("C07 vint32_src {v}"));
+        if m != hex(&bytes) {
+            ctx.report.violation("model", "C07:model-vint32", format!("serialize_vint_u32({v}) = {}, translated source (rs2lean) gives {m}", hex(&bytes)), case.clone());
+        }
         let m = ctx.model.ask(&format!("C07 vint32_dec {}", hex(&padded)));
         if m != format!("{} {}", back.0, back.1) {
             ctx.report.violation("model", "C07:model-vint32", format!("read_u32_vint_no_advance({}) = {:?}, model {m}", hex(&padded), back), case);
